@@ -272,6 +272,26 @@ func vpPostSnapStatus(r *raft, pre vpRec, p2 vpPre2, m *pb.Message) {
 	vpAssert(len(r.msgs) == pre.nmsgs, "S4/status-sends-nothing")
 }
 
+// MsgUnreachable only turns optimistic replication into probing; a pending
+// snapshot stays pending (no append may be sent to that peer meanwhile).
+func vpPostUnreachable(r *raft, pre vpRec, p2 vpPre2, m *pb.Message) {
+	if pre.state != StateLeader || r.state != StateLeader {
+		return
+	}
+	for id := uint64(2); id <= 4; id++ {
+		pr := r.trk.Progress[id]
+		if pr == nil || !pre.hasPr[id] {
+			continue
+		}
+		hit := m.GetFrom() == id
+		vpAssert(vpImplies(vpAnd(hit, p2.pstate[id] == tracker.StateSnapshot), vpAnd(pr.State == tracker.StateSnapshot, pr.PendingSnapshot == p2.pending[id], pr.Next == p2.next[id])), "S4/unreachable-keeps-pending-snapshot")
+		vpAssert(vpImplies(vpAnd(hit, p2.pstate[id] == tracker.StateReplicate), vpAnd(pr.State == tracker.StateProbe, pr.Next == pre.match[id]+1)), "S4/unreachable-replicate-becomes-probe")
+		vpAssert(vpImplies(vpAnd(hit, p2.pstate[id] == tracker.StateProbe), vpAnd(pr.State == tracker.StateProbe, pr.Next == p2.next[id])), "S4/unreachable-probe-unchanged")
+		vpAssert(pr.Match == pre.match[id], "Q2/unreachable-keeps-match")
+	}
+	vpAssert(len(r.msgs) == pre.nmsgs, "S4/unreachable-sends-nothing")
+}
+
 // ---------------------------------------------------------------------------
 // C10-G3: no campaign with a committed-but-unapplied configuration change
 // ---------------------------------------------------------------------------
